@@ -648,6 +648,29 @@ incremental = false
     src.append(MAIN)
     open(os.path.join(cdir, 'src', 'main.rs'), 'w').write('\n'.join(src))
 
+def write_multi_crate(cdir, units, repo, feature):
+    """units: list of (name, mods); one binary target per unit (src/bin/<name>.rs), so that one
+    `cargo build --keep-going` builds every unit that compiles and shares the dependencies"""
+    write_crate(cdir, [], repo, feature)
+    os.remove(os.path.join(cdir, 'src', 'main.rs'))
+    os.makedirs(os.path.join(cdir, 'src', 'bin'), exist_ok=True)
+    for name, mods in units:
+        src = ['#![allow(dead_code)]', f'#[path = "{RT}"]', 'mod rt;']
+        for idx, code in mods:
+            src.append(code)
+        src.append('fn dispatch(m: usize, lines: &[String]) -> Vec<String> { match m {')
+        for idx, _ in mods:
+            src.append(f'  {idx} => m{idx}::run(lines),')
+        src.append('  _ => vec![] } }')
+        src.append(MAIN)
+        open(os.path.join(cdir, 'src', 'bin', f'{name}.rs'), 'w').write('\n'.join(src))
+
+def build_multi_crate(cdir, target_dir):
+    env = dict(os.environ, CARGO_NET_OFFLINE='true')
+    r = subprocess.run(['cargo', 'build', '--offline', '--quiet', '--keep-going', '--bins', '--target-dir', target_dir],
+                       cwd=cdir, env=env, capture_output=True, text=True)
+    return r.returncode == 0, r.stderr
+
 def build_crate(cdir, target_dir):
     env = dict(os.environ, CARGO_NET_OFFLINE='true')
     r = subprocess.run(['cargo', 'build', '--offline', '--quiet', '--target-dir', target_dir], cwd=cdir, env=env,
